@@ -8,22 +8,35 @@ ID = "C15"
 GEN = []
 LEVEL = "proof"
 TECHNIQUE = ("Coq proof over a pure state-machine model of trainers, monitor pools, cell.monitors and the layers' "
-             "forward-hook lists (invariants by induction over operation sequences, simulation against an "
-             "independent per-entry specification machine, witness theorems for the two unrepaired defects); "
-             "model tied to the code by a differential correspondence check on seeded operation sequences")
-LEVEL_TEXT = ("Machine-checked, axiom-free Coq theorems about a state machine that mirrors pooling.py (alias search "
-              "included), learn/base.py, the hook registration of infrastructure.py and the monitor sets of the shipped "
-              "trainers: well-formedness of the hook lists and pools for every operation sequence; no monitor records "
-              "while its trainer is in eval mode; exactly one observation per layer step while trainer and layer train "
-              "(for sequences that do not delete a cell/monitor whose monitor is shared - the shared case is refuted by "
-              "a witness, defect 'del_cell_shared_monitor'); operations of one trainer never change the recording of "
-              "another trainer's monitors; listings are exact; prepended monitors run before appended ones so an "
-              "eligibility monitor reads same-step traces (refuted across trainers: 'monitor_name_rebinding').")
+             "forward-hook lists: invariants by induction over operation sequences, exact per-call effect of a layer "
+             "call, frame (isolation) theorems, observation count = number of training steps over whole histories, "
+             "witness theorems for the two unrepaired defects; model tied to the code by a differential "
+             "correspondence check on seeded operation sequences")
+LEVEL_TEXT = ("Machine-checked, axiom-free Coq theorems (21 obligations) about a state machine that mirrors pooling.py "
+              "(alias search included), learn/base.py, Hook.register/deregister and the mode gate of infrastructure.py, "
+              "Cell.local_remap / Layer._realign_attribute and the monitor sets of the shipped trainers. For EVERY operation "
+              "sequence: hook lists are duplicate-free, hold exactly the registered monitors of the layer, prepended before "
+              "appended (hooks_wf_always); pools reference live monitors on the right layer, every monitor has one owner, "
+              "nothing is hooked while its trainer is in eval mode, every hooked monitor has a live training owner (run_TI, "
+              "eval_trainer_records_nothing, registered_monitor_has_training_owner); a layer call gives each hooked monitor "
+              "of a training layer exactly one observation and nothing else any (layer_step_exactly_once / at_most_once, "
+              "only_layer_calls_record); a prepend=False reader sees same-step data of prepend=True monitors, also after "
+              "eval()/train() (reads_current); operations of one trainer leave other trainers and their monitors untouched "
+              "(other_trainers_untouched); listings are exact (register_cell_listing, del_cell_listing, del_monitor_listing, "
+              "listings_consistent). For sequences that never delete an entry whose monitor is shared: trainer training => "
+              "all its monitors hooked (run_Complete), one observation per training step (one_obs_per_training_step_partial), "
+              "observation count over a history = number of training steps (obs_count_is_training_steps). The shared-delete "
+              "case and the cross-registration read are refuted by witnesses (one_obs_del_cell_shared_refuted, "
+              "elig_reads_own_traces_refuted, second_trainer_breaks_layer_call_refuted) replayed on the implementation.")
 LEVEL_NOTE = ("Trusted: Coq kernel; hand-written model C15/Lifecycle.v validated only by the correspondence check "
               "(generator coverage); CPython reference counting / weakref / torch hook dispatch modelled by documented "
-              "effect (gc.collect() after every operation on the implementation side). NOT modelled: Input/Output "
+              "effect (the harness keeps only weak references; gc.collect() after drops and failures). PARTIAL: "
+              "one_obs_per_training_step / obs_count are proved for `safe` sequences only (no del_cell/del_monitor of an "
+              "entry whose monitor another entry shares) and for layer calls that do not raise - the full statements are "
+              "false of the code (known findings del_cell_shared_monitor, monitor_name_rebinding); training_steps is "
+              "evaluated on the model's own mode flags (set only by TrainerMode / LayerMode). NOT modelled: Input/Output "
               "monitors (hooked on submodules), eval_update=True monitors, layers or cells being garbage collected, "
-              "the numeric content of the recorded observations (C07/C08 cover the reducers).")
+              "hook order between two plain monitors (unobservable), the numeric content of observations (C07/C08).")
 HEADER = ("From Coq Require Import List ZArith Bool.\nFrom Inferno Require Import Base.NumF C15.Lifecycle C15.LifecycleExec.\n"
           "Import ListNotations.\n")
 IMPL = os.path.join(F.VERIF, "tools", "impl", "c15_impl.py")
